@@ -4,7 +4,7 @@
    Constant, no other Extract Inductive. *)
 Require Extraction.
 Require Import ExtrOcamlBasic.
-From FV Require Import Base.Serial Session.Window Link.SenderCredit Base.Bytes Codec.Value Codec.Enc Codec.Dec Codec.Spec Codec.Composite Codec.CompositeSpec Frame.AmqpFrame Frame.TransferWire Frame.Transfer Lib.LengthDelimited Session.Disposition Lib.Slab Session.Ids Conn.Lifecycle Conn.Timers Link.Receiver Session.SessLife Auth.SaslListener Frame.SessionSplit Link.LinkLife Link.RecvLife Link.SendCancel Txn.Manager Conn.Failure Auth.ScramClient.
+From FV Require Import Base.Serial Session.Window Link.SenderCredit Base.Bytes Codec.Value Codec.Enc Codec.Dec Codec.Spec Codec.Composite Codec.CompositeSpec Frame.AmqpFrame Frame.TransferWire Frame.Transfer Lib.LengthDelimited Session.Disposition Lib.Slab Session.Ids Conn.Lifecycle Conn.WireEvents Conn.Timers Link.Receiver Session.SessLife Auth.SaslListener Frame.SessionSplit Link.LinkLife Link.RecvLife Link.SendCancel Txn.Manager Conn.Failure Auth.ScramClient.
 Extraction Language OCaml.
 Separate Extraction
   Window.run Window.step Window.begun_for_oracle Window.on_incoming_flow
@@ -14,7 +14,7 @@ Separate Extraction
   Transfer.wire_transfer Transfer.wire_other LengthDelimited.ld_feed_all
   Disposition.dstep
   Ids.lstep Ids.ls_init Ids.cstep Ids.cn_init
-  Lifecycle.step
+  Lifecycle.step WireEvents.on_frame_bytes
   Timers.tstep Timers.tinit Timers.advertised
   Receiver.rstep Receiver.rinit
   SessLife.sstep
